@@ -31,10 +31,11 @@ type queryRequest struct {
 }
 
 type queryEvent struct {
-	r   resource
-	sub *nats.Subscription
-	ch  chan *nats.Msg
-	cb  func(r QueryRequest)
+	r    resource
+	sub  *nats.Subscription
+	ch   chan *nats.Msg
+	cb   func(r QueryRequest)
+	done chan struct{} // Closed when the query event has expired
 }
 
 // Model sends a model response for the query request.
@@ -129,16 +130,37 @@ func (qr *queryRequest) Timeout(d time.Duration) {
 }
 
 // startQueryListener listens for query requests and passes them on to a worker.
+// Once the query event has expired, it passes on any request already received,
+// ends the query event by calling the callback with nil, and returns.
 func (qe *queryEvent) startQueryListener() {
-	for m := range qe.ch {
-		m := m
-		vhook("ql.recv", qe.r.rname, m.Reply)
-		qe.r.s.runWith(qe.r.Group(), func() {
-			qe.handleQueryRequest(m)
-			vhook("qr.done", qe.r.rname, m.Reply)
-		})
+	for {
+		select {
+		case m := <-qe.ch:
+			qe.enqueueRequest(m)
+		case <-qe.done:
+			for {
+				select {
+				case m := <-qe.ch:
+					qe.enqueueRequest(m)
+				default:
+					qe.r.s.runWith(qe.r.Group(), func() {
+						qe.cb(nil)
+					})
+					vhook("ql.exit", qe.r.rname)
+					return
+				}
+			}
+		}
 	}
-	vhook("ql.exit", qe.r.rname)
+}
+
+// enqueueRequest passes a query request on to a worker.
+func (qe *queryEvent) enqueueRequest(m *nats.Msg) {
+	vhook("ql.recv", qe.r.rname, m.Reply)
+	qe.r.s.runWith(qe.r.Group(), func() {
+		qe.handleQueryRequest(m)
+		vhook("qr.done", qe.r.rname, m.Reply)
+	})
 }
 
 // handleQueryRequest is called by the query listener on incoming query requests.
